@@ -202,6 +202,20 @@ func runUnits(ps *PropSpec, opts Options, overlay map[string][]byte) *runOutput 
 			}
 			results = append(results, V.verifyWithCandidates(fn, fc))
 		}
+		// lemmas of the contract files whose package has a function under verification
+		lemPkgs := map[string]bool{}
+		for _, r := range results {
+			if f := P.Funcs[r.Key]; f != nil {
+				if pk := V.pkgOfKey(r.Key); pk != nil {
+					lemPkgs[pk.Path()] = true
+				}
+			}
+		}
+		if len(opts.OnlyFuncs) == 0 {
+			if lr := V.verifyLemmas(lemPkgs); lr != nil {
+				results = append(results, lr)
+			}
+		}
 		for _, sc := range ps.Structural {
 			n, viol := runStructural(sc, P)
 			out.StructuralN += n
